@@ -259,7 +259,7 @@ func c09(c *Ctx) {
 	p, r := c.K1(), c.R
 	// R7: values given to When are compared exactly (C18.R5): no integer is compared through float64
 	if !c.importing {
-		importSibling(c, "C18", "C09.R7", func(rule string) bool { return rule == "C18.R5" })
+		importSibling(c, "C18", "C09.R7", func(rule string) bool { return rule == "C18.R5" || rule == "C18.R4" })
 	}
 	r.Expl = "Structural clauses behind 'stubbed values are typed as the function declares': the nil→typed-zero arm of the value converter tests every nilable kind the property names (pointer, interface, slice, map, chan, func) under r==nil; Zero/New are typed by the declared type; the unsafe retyping helper and every pass-through return are dominated by a size-equality check; conversion errors are never dropped by callers; the back-conversion maps exactly zero pointer/interface values to untyped nil. DeepEqual-level fidelity of delivered values is not decided."
 	r.RuleText = "one obligation per (rule, converter function / call site / return edge)"
